@@ -75,7 +75,10 @@ class ImplWorld(ImplExt):
         # the harness's own account of who is subscribed (from the events alone, never read from the dispatcher)
         if not hasattr(self, "sub_state") or len(self.sub_state) != len(self.heap) - 1:
             self.sub_state = [True] * (len(self.heap) - 1)
+            self.sub_order = list(range(len(self.heap) - 1))
         self.sub_state.append(subscribed)
+        if subscribed:
+            self.sub_order.append(len(self.heap) - 1)      # subscription order, from the events alone
         if isinstance(obs, Recorder):
             obs.rid = len(self.heap) - 1
             obs.trace = self.trace
@@ -131,6 +134,8 @@ class ImplWorld(ImplExt):
         except ValueError:
             return "raise"
         self.sub_state[i] = False
+        if i in self.sub_order:
+            self.sub_order.remove(i)
         return "ok"
 
     def cmd_resub(self, ts):
@@ -139,6 +144,7 @@ class ImplWorld(ImplExt):
             return "raise"  # double subscription is outside the event alphabet (DESIGN C10)
         self.dispatcher.subscribe(self.heap[i])
         self.sub_state[i] = True
+        self.sub_order.append(i)
         return "ok"
 
     def fmt_obs(self, i) -> str:
